@@ -772,6 +772,23 @@ fn literal_cases(args: &util::Args) -> Vec<Lit> {
         ("quotes-inside", vec!["say \"hi\"", "// not a comment"]),
         ("leading-blanks-kept", vec!["  indented", "\ttabbed"]),
     ];
+    // lines with trailing / interior / only blanks, tabs, non-ASCII blanks, and random raw lines:
+    // what is written after the `\\\\` marker is the value, character for character
+    let mut ml: Vec<(String, Vec<String>)> = ml.into_iter().map(|(c, ls)| (c.to_string(), ls.into_iter().map(|l| l.to_string()).collect())).collect();
+    ml.push(("trailing-space".into(), vec!["name:  ".into(), "value\t".into(), "   ".into(), "end".into()]));
+    ml.push(("trailing-nbsp".into(), vec!["a\u{a0}".into(), "b\u{3000}".into()]));
+    ml.push(("only-blank-lines".into(), vec![" ".into(), "\t ".into()]));
+    ml.push(("interior-blanks".into(), vec!["a  b\tc".into(), " \t x \t ".into()]));
+    {
+        let alphabet = ["a", " ", "\t", "\\", "\"", "/", "é", "\u{a0}", "x", "  "];
+        let mut r = crate::rng::Rng::new(args.seed ^ 0x11C);
+        let n_random = if args.tier == "thorough" { 400 } else { 60 };
+        for k in 0..n_random {
+            let nl = 2 + r.below(3); // the lexer needs at least two `\\\\` lines
+            let lines: Vec<String> = (0..nl).map(|_| (0..r.below(6)).map(|_| *r.pick(&alphabet)).collect::<String>()).collect();
+            ml.push((format!("random-{}", k), lines));
+        }
+    }
     for (class, lines) in ml {
         let spelling = lines.iter().map(|l| format!("\\\\{}", l)).collect::<Vec<_>>().join("\n        ");
         v.push(Lit {
